@@ -31,7 +31,11 @@ type flowCtx struct {
 
 func (w *World) pathOf(v ssa.Value) string {
 	c := &flowCtx{w: w, seen: map[ssa.Value]bool{}}
-	return c.path(v)
+	p := c.path(v)
+	if w.cur != nil && w.cur.alias != nil {
+		p = applyAlias(p, w.cur.alias)
+	}
+	return p
 }
 
 func paramIndex(p *ssa.Parameter) int {
